@@ -224,6 +224,7 @@ struct FnDirective {
     retain_captures: Vec<(String, String)>,
     retain_clauses: Vec<String>,
     slots: Vec<(String, String)>,
+    clears: Vec<(String, String, String)>,
     spawn_body: bool,
     nodecreases: bool,
 }
@@ -703,6 +704,7 @@ fn main() {
                 guards: opts.get("guards").map(|s| s.split_whitespace().map(|x| x.to_string()).collect()).unwrap_or_default(),
                 retain_captures: opts.get("retain_captures").map(|s| s.split(';').filter_map(|x| x.split_once(':').map(|(a, b)| (a.trim().to_string(), b.trim().to_string()))).collect()).unwrap_or_default(),
                 slots: opts.get("slots").map(|s| s.split_whitespace().filter_map(|x| x.split_once(':').map(|(a, b)| (a.to_string(), b.to_string()))).collect()).unwrap_or_default(),
+                clears: opts.get("clears").map(|s| s.split_whitespace().filter_map(|x| { let v: Vec<&str> = x.splitn(3, ':').collect(); if v.len() == 3 { Some((v[0].to_string(), v[1].to_string(), v[2].to_string())) } else { None } }).collect()).unwrap_or_default(),
                 spawn_body: opts.contains_key("spawn_body"),
                 nodecreases: opts.contains_key("nodecreases"),
                 mutparams: opts.get("mutparams").map(|s| s.split_whitespace().map(|x| x.to_string()).collect()).unwrap_or_default(),
@@ -1251,6 +1253,21 @@ fn emit_fn(
                     k += 4;
                     continue;
                 }
+            }
+            k += 1;
+        }
+    }
+    // R28b: every `self.<slot> = None;` carries the obligation that the contract's spec predicate allows the parked value to go
+    for (slot, label, pred) in &d.clears {
+        let needle = format!("self.{slot} = None;");
+        let mut k = 0;
+        while k < body.len() {
+            let l = body[k].clone();
+            if !l.contains("/*vxslot*/") && l.trim_start().starts_with(&needle) {
+                let ind: String = l.chars().take_while(|c| c.is_whitespace()).collect();
+                body.insert(k, format!("{ind}assert({pred}(self.{slot})); // [{label}] /*vxslot*/"));
+                k += 2;
+                continue;
             }
             k += 1;
         }
